@@ -272,6 +272,10 @@ def run_case(case):
             pr = M.get_propensities()[0]
             got["general.py_get_propensity"] = (pr.py_get_propensity(xm.copy(), pm.copy(), t), e1)
             got["general.py_get_volume_propensity"] = (pr.py_get_volume_propensity(xm.copy(), pm.copy(), V, t), eV)
+            # the forms the stochastic simulators call (guarded probes): a general rate has no combinatorial form, it is the
+            # written formula, with and without a volume
+            got["general.py_get_stochastic_propensity"] = (pr.py_get_stochastic_propensity(xm.copy(), pm.copy(), t), e1)
+            got["general.py_get_stochastic_volume_propensity"] = (pr.py_get_stochastic_volume_propensity(xm.copy(), pm.copy(), V, t), eV)
             M.set_params({q: p[q] for q in par})
             M.set_params({q: p[q[1:]] for q in extra})
             st = xm.copy()
